@@ -45,24 +45,35 @@ structure Conn where
   log : List Call := []
   deriving DecidableEq, Repr
 
+/-- result of `readline` on the flat stream: the line and what follows it -/
+inductive LineR where
+  | line (l rest : Bytes)
+  | tooLong
+  | stall
+  deriving DecidableEq, Repr
+
+/-- `StreamReader.readline()` on the concatenated stream: up to and including the first LF;
+at EOF what is left; more than 64 KiB without LF is `ValueError`; otherwise it waits. -/
+def readlineFlat (rest : Bytes) (eof : Bool) : LineR :=
+  match findLF rest with
+  | some i => if i > lineLimit then .tooLong else .line (rest.take (i + 1)) (rest.drop (i + 1))
+  | none =>
+    if rest.length > lineLimit then .tooLong
+    else if eof then .line rest []
+    else .stall
+
 inductive RL where
   | line (l : Bytes) (c : Conn)
   | tooLong
   | stall
   deriving DecidableEq
 
-/-- `Connection.readline()`: up to and including the first LF; at EOF what is left;
-more than 64 KiB without LF is `ValueError`. -/
+/-- `Connection.readline()` -/
 def Conn.readline (c : Conn) : RL :=
-  match findLF c.rest with
-  | some i =>
-    if i > lineLimit then .tooLong
-    else .line (c.rest.take (i + 1))
-      { c with rest := c.rest.drop (i + 1), log := c.log ++ [.readline (c.rest.take (i + 1))] }
-  | none =>
-    if c.rest.length > lineLimit then .tooLong
-    else if c.eof then .line c.rest { c with rest := [], log := c.log ++ [.readline c.rest] }
-    else .stall
+  match readlineFlat c.rest c.eof with
+  | .line l r => .line l { c with rest := r, log := c.log ++ [.readline l] }
+  | .tooLong => .tooLong
+  | .stall => .stall
 
 inductive RD where
   | data (d : Bytes) (c : Conn)
